@@ -19,6 +19,8 @@ rm -rf "$S"
 ok=0
 [ "$rc0" = 0 ] && [ "$rc1" != 0 ] || ok=1
 if [ "$NOBL" != "--no-baseline" ]; then
+  # only test files whose import closure contains a touched module can change their outcome
+  export BL_ONLY="$("$(dirname "$0")/affected_tests.py" "$W" "$D/patch.diff")"
   "$(dirname "$0")/baseline_sharded.sh" "$W" | head -8; bl=${PIPESTATUS[0]}
   [ "$bl" = 0 ] || ok=1
 fi
